@@ -824,7 +824,37 @@ let run_pc_sonic c =
                     obs1 (k "check") "S" (if b then "accept" else "reject");
                     obs1 (k "nvchal") "N" (string_of_int (List.length vchal - List.length vrest))
                   | _ -> obs1 (k "check") "S" "refused");
-                 recs.(t) <- Some (pj, sel, values, pf)
+                 recs.(t) <- Some (`Single (pj, sel, values, pf))
+               | _ -> ())
+            | [ "batch"; sq ] ->
+              let chal = fs_of c (k "chal") and vchal = fs_of c (k "vchal") in
+              let ident = List.init n (fun i -> i) in
+              let pperm = if has c (k "pperm") then List.map int_of_string (get c (k "pperm")) else ident in
+              let vperm = if has c (k "vperm") then List.map int_of_string (get c (k "vperm")) else ident in
+              let tr3 = triples3 (get c ("qs." ^ sq)) in
+              let qs = List.map (fun (i, zl, pj) -> (lps.(i).Marlin.lp_label, (nlabel zl, pts.(pj)))) tr3 in
+              let ev = List.map (fun (i, _, pj) -> ((lps.(i).Marlin.lp_label, pts.(pj)), Poly.eval fo lps.(i).Marlin.lp_poly pts.(pj))) tr3 in
+              let evm = Marlin.evals_map fo ev in
+              obs (k "evals") "F" (fs_to (List.map snd evm));
+              let items = List.map (fun i -> (lps.(i), snd cs.(i))) pperm in
+              let r = Sonic.s_batch_open fo ck items qs chal in
+              obs1 (k "open") "S" (class_of r);
+              (match r with
+               | Result.Ok (pfs, rest) ->
+                 obs1 (k "nchal") "N" (string_of_int (List.length chal - List.length rest));
+                 obs1 (k "nproofs") "N" (string_of_int (List.length pfs));
+                 List.iteri (fun j pf ->
+                     obs1 (Printf.sprintf "pf.%d.%d.w" t j) "G1" (f_to_str pf.KZG10.pf_w);
+                     obs1 (Printf.sprintf "pf.%d.%d.rv" t j) "F" (f_opt_to_str pf.KZG10.pf_random_v)) pfs;
+                 let vtape = fs_of c (k "vtape") in
+                 let cml = List.map (fun i -> (lps.(i).Marlin.lp_label, (fst cs.(i), lps.(i).Marlin.lp_bound))) vperm in
+                 (match Sonic.s_batch_check fo vk cml qs ev pfs vchal vtape with
+                  | Result.Ok ((b, vrest), draws) ->
+                    obs1 (k "check") "S" (if b then "accept" else "reject");
+                    obs1 (k "nvchal") "N" (string_of_int (List.length vchal - List.length vrest));
+                    obs1 (k "check_draws") "N" (string_of_int (int_of_nat draws))
+                  | _ -> obs1 (k "check") "S" "refused");
+                 recs.(t) <- Some (`Batch (tr3, pfs, vperm))
                | _ -> ())
             | _ -> ()
           done;
@@ -836,8 +866,75 @@ let run_pc_sonic c =
               if t < nops && has c (Printf.sprintf "mchal.%d" m) then begin
                 let mchal = fs_of c (Printf.sprintf "mchal.%d" m) in
                 let cms = Array.init n (fun i -> (fst cs.(i), lps.(i).Marlin.lp_bound)) in
+                let comm_mut_s i kind2 args2 =
+                  let (cv, b) = cms.(i) in
+                  match kind2 with
+                  | "relabel_bound" when b <> None -> cms.(i) <- (cv, Some (nat_of_int (int_of_string (List.hd args2)))); true
+                  | "drop_bound" when b <> None -> cms.(i) <- (cv, None); true
+                  | "add_bound" when b = None -> cms.(i) <- (cv, Some (nat_of_int (int_of_string (List.hd args2)))); true
+                  | _ -> false in
+                let proof_mut_s pf kind2 args2 = match kind2 with
+                  | "w_add" -> Some { pf with KZG10.pf_w = fo.Field.fadd pf.KZG10.pf_w (f_of_str (List.hd args2)) }
+                  | "rv" -> Some { pf with KZG10.pf_random_v = (if List.hd args2 = "none" then None else Some (f_of_str (List.hd args2))) }
+                  | _ -> None in
                 match recs.(t) with
-                | Some (pj, sel, values, pf) ->
+                | Some (`Batch (tr3, pfs, vperm)) ->
+                  let pv = ref pfs and tr3 = ref tr3 and vperm = ref vperm and ok = ref true in
+                  let deltas = ref [] and newpt = ref None in
+                  let nth_opt l i = try Some (List.nth l i) with _ -> None in
+                  (match kind with
+                   | "value" -> deltas := [ (int_of_string (arg 0), f_of_str (arg 1)) ]
+                   | "cancel" -> let dd = f_of_str (arg 2) in
+                     deltas := [ (int_of_string (arg 0), dd); (int_of_string (arg 1), fo.Field.fopp dd) ]
+                   | "point" -> newpt := Some (int_of_string (arg 0), int_of_string (arg 1))
+                   | "comm_swap" -> let i = int_of_string (arg 0) and j = int_of_string (arg 1) in cms.(i) <- (fst cs.(j), snd cms.(i))
+                   | "comm_mut" -> ok := comm_mut_s (int_of_string (arg 0)) (arg 1) (List.tl (List.tl args))
+                   | "proof_mut" -> let kk = int_of_string (arg 0) in
+                     (match nth_opt !pv kk with
+                      | Some p -> (match proof_mut_s p (arg 1) (List.tl (List.tl args)) with
+                          | Some p2 -> pv := List.mapi (fun i x -> if i = kk then p2 else x) !pv | None -> ok := false)
+                      | None -> ok := false)
+                   | "proofs" ->
+                     let len = List.length !pv in
+                     (match arg 0 with
+                      | "perm" -> let a = int_of_string (arg 1) and b = int_of_string (arg 2) in
+                        if a < len && b < len then begin
+                          let pa = List.nth !pv a and pb = List.nth !pv b in
+                          pv := List.mapi (fun i x -> if i = a then pb else if i = b then pa else x) !pv end else ok := false
+                      | "trunc" -> let kk = int_of_string (arg 1) in if kk < len then pv := take kk !pv else ok := false
+                      | "dup" -> let a = int_of_string (arg 1) and b = int_of_string (arg 2) in
+                        if a < len && b < len then begin
+                          let pa = List.nth !pv a in pv := List.mapi (fun i x -> if i = b then pa else x) !pv end else ok := false
+                      | "empty" -> pv := []
+                      | "extend" -> if len > 0 then pv := !pv @ [ List.nth !pv (len - 1) ] else ok := false
+                      | _ -> ok := false)
+                   | "proof_from" -> (match (try recs.(int_of_string (arg 0)) with _ -> None) with
+                       | Some (`Batch (_, p2, _)) -> pv := p2 | _ -> ok := false)
+                   | "sponge_pre" -> ()
+                   | "vperm" -> vperm := List.map int_of_string args
+                   | "drop_eval" -> ()
+                   | "drop_comm" -> let i = int_of_string (arg 0) in vperm := List.filter (fun x -> x <> i) !vperm
+                   | "drop_query" -> let kk = int_of_string (arg 0) in
+                     if kk < List.length !tr3 then tr3 := List.filteri (fun i _ -> i <> kk) !tr3 else ok := false
+                   | _ -> ok := false);
+                  if !ok then begin
+                    let usept pj = match !newpt with Some (o, nw) when o = pj -> nw | _ -> pj in
+                    let qs = List.map (fun (i, zl, pj) -> (lps.(i).Marlin.lp_label, (nlabel zl, pts.(usept pj)))) !tr3 in
+                    let ev = List.map (fun (i, _, pj) -> ((lps.(i).Marlin.lp_label, pts.(usept pj)), Poly.eval fo lps.(i).Marlin.lp_poly pts.(pj))) !tr3 in
+                    let evm = Marlin.evals_map fo ev in
+                    let nk = List.length evm in
+                    if List.exists (fun (kk, _) -> kk >= nk) !deltas then ()
+                    else begin
+                      let evm = List.mapi (fun i (key, v) ->
+                          (key, List.fold_left (fun v (kk, dd) -> if kk = i then fo.Field.fadd v dd else v) v !deltas)) evm in
+                      let evm = if kind = "drop_eval" then List.filteri (fun i _ -> i <> int_of_string (arg 0)) evm else evm in
+                      let vtape = fs_of c (Printf.sprintf "vtape.%d" t) in
+                      let cml = List.map (fun i -> (lps.(i).Marlin.lp_label, cms.(i))) !vperm in
+                      obs1 name "S" (decision (match Sonic.s_batch_check fo vk cml qs evm !pv mchal vtape with
+                          | Result.Ok ((b, _), _) -> Result.Ok b | Result.Err e -> Result.Err e | Result.Panic -> Result.Panic))
+                    end
+                  end
+                | Some (`Single (pj, sel, values, pf)) ->
                   let pj = ref pj and sel = ref sel and values = ref values and pf = ref pf and ok = ref true in
                   (match kind with
                    | "value" -> let k = int_of_string (arg 0) in
@@ -845,7 +942,7 @@ let run_pc_sonic c =
                    | "point" -> pj := int_of_string (arg 0)
                    | "comm_swap" -> let i = int_of_string (arg 0) and j = int_of_string (arg 1) in cms.(i) <- (fst cs.(j), snd cms.(i))
                    | "proof_from" -> (match (try recs.(int_of_string (arg 0)) with _ -> None) with
-                       | Some (_, _, _, p2) -> pf := p2 | _ -> ok := false)
+                       | Some (`Single (_, _, _, p2)) -> pf := p2 | _ -> ok := false)
                    | "sponge_pre" -> ()
                    | "drop_poly" -> let k = int_of_string (arg 0) in
                      if k < List.length !sel then begin
